@@ -31,7 +31,101 @@ import (
 func init() {
 	Registry["C06"] = &Check{Setup: c06Setup, Run: c06Run}
 	subs["race"] = c06RaceChild
+	subs["racestress"] = c06RaceStressChild
 }
+
+// c06RaceStressChild: 8 goroutines detect every witness (each in a different
+// rotation, through Detect and DetectReader), look up every registered name
+// and alias and call the accessors, while (variant 1) a ninth goroutine toggles
+// the limit and registers extensions. Free-running under the race detector: it
+// reaches every node's lazily built or pooled state, which the small scenario
+// alphabet of part A cannot.
+func c06RaceStressChild(c *core.Ctx, args []string) int {
+	variant := 0
+	if len(args) > 0 {
+		variant, _ = strconv.Atoi(args[0])
+	}
+	W := corpus(c)
+	var names []string
+	for _, n := range mimetype.VerifNodes() {
+		names = append(names, n.Name)
+		names = append(names, n.Aliases...)
+	}
+	var wg sync.WaitGroup
+	start := make(chan struct{})
+	for g := 0; g < 8; g++ {
+		wg.Add(1)
+		go func(g int) {
+			defer wg.Done()
+			<-start
+			for k := range W {
+				w := W[(k*7+g*41)%len(W)]
+				if len(w.Data) > 8192 {
+					continue
+				}
+				m := mimetype.Detect(w.Data)
+				for p := m; p != nil; p = p.Parent() {
+					_ = p.String() + p.Extension()
+					_ = p.Is("text/plain")
+				}
+				if g%2 == 0 {
+					mimetype.DetectReader(bytes.NewReader(w.Data))
+				}
+			}
+			for k := range names {
+				n := names[(k*5+g*13)%len(names)]
+				if m := mimetype.Lookup(n); m != nil {
+					_ = m.Is(n)
+					_ = m.Parent()
+				}
+			}
+		}(g)
+	}
+	if variant == 1 {
+		wg.Add(1)
+		go func() {
+			defer wg.Done()
+			<-start
+			for i := 0; i < 200; i++ {
+				mimetype.SetLimit(uint32([]int{0, 8, 3072, 100}[i%4]))
+				if i%50 == 0 {
+					aliases := make([]string, 1, 3)
+					aliases[0] = fmt.Sprintf("x/stress-alias-%d", i)
+					mimetype.Extend(func(b []byte, _ uint32) bool { return bytes.HasPrefix(b, []byte("stress")) }, fmt.Sprintf("x/stress-%d", i), ".st", aliases...)
+				}
+			}
+			mimetype.SetLimit(3072)
+		}()
+	}
+	close(start)
+	wg.Wait()
+	fmt.Println("race-stress-complete")
+	return 0
+}
+
+// c06StressEval: Ints[0] = variant
+func c06StressEval(cs *core.Case) (bool, string, string) {
+	dir := os.Getenv("VERIF_WORKER_DIR")
+	bin := filepath.Join(dir, "worker-race")
+	if _, err := os.Stat(bin); err != nil {
+		return true, "skip-no-race-binary", ""
+	}
+	cmd := exec.Command(bin, "C06", "--sub", "racestress", "--home", c06ctx.Home, "--repo", c06ctx.Repo, "--", strconv.Itoa(cs.Ints[0]))
+	cmd.Env = append(os.Environ(), "GORACE=halt_on_error=1 exitcode=66", "GOMAXPROCS=8")
+	var ob bytes.Buffer
+	cmd.Stdout, cmd.Stderr = &ob, &ob
+	err := cmd.Run()
+	out := ob.String()
+	if strings.Contains(out, "WARNING: DATA RACE") || strings.Contains(out, "concurrent map") {
+		return false, "C06/data-race/stress", fmt.Sprintf("all witnesses detected by 8 goroutines (variant %d), free-running under the race detector: %s", cs.Ints[0], firstLines(out, 14))
+	}
+	if err != nil {
+		return false, "C06/race-stress-failed", fmt.Sprintf("race stress failed: %v: %s", err, firstLines(out, 8))
+	}
+	return true, "", ""
+}
+
+var c06ctx *core.Ctx
 
 const (
 	opDetect = iota
@@ -615,6 +709,8 @@ func c06RaceChild(c *core.Ctx, args []string) int {
 }
 
 func c06Setup(c *core.Ctx) {
+	c06ctx = c
+	c.Register("c06stress", c06StressEval)
 	c.Register("c06", c06Eval)
 	c.Register("c06race", c06RaceEval)
 }
@@ -796,6 +892,16 @@ func c06Run(c *core.Ctx) {
 		rc.Ints = sc.encode()
 		c.R.Evals++
 		c.Check(rc)
+	}
+	// Part B, second half: every witness, every registered name, 8 goroutines
+	for v := 0; v < 2; v++ {
+		if c.Mine(uint64(v)) {
+			sc := &core.Case{Kind: "c06stress", Ints: []int{v}}
+			c.R.Evals++
+			c.R.Transitions++
+			c.Check(sc)
+			c.Sample("race-stress", map[string]any{"variant": v, "goroutines": 8, "inputs": "every witness <= 8 KiB, every registered name and alias"})
+		}
 	}
 	c.Note("schedules-executed", execs)
 	c.Note("scheduling-decisions", points)
